@@ -366,14 +366,15 @@ int disasm_arm64(
         case OP_REG_RELATIVE:
         {
           imm = (opcode >> 5) & ((1 << 19) - 1);
-          imm = (imm << 2) | ((opcode >> 24) & 0x3);
+          // immhi:immlo (bits 23-5 and 30-29), relative to this instruction.
+          imm = (imm << 2) | ((opcode >> 29) & 0x3);
 
-          if ((imm & 0x00080000) != 0) { imm &= 0xfff00000; }
+          if ((imm & 0x00100000) != 0) { imm |= 0xffe00000; }
 
           snprintf(instruction, length, "%s x%d, 0x%04x (offset=%d)",
             table_arm64[n].instr,
             rd,
-            address + 4 + imm,
+            address + imm,
             imm);
 
           return 4;
@@ -473,7 +474,7 @@ int disasm_arm64(
 
           snprintf(instruction, length, "%s 0x%04x (offset=%d)",
             table_arm64[n].instr,
-           (address + 4 + imm),
+           (address + imm),
             imm);
 
           return 4;
